@@ -269,13 +269,32 @@ func (g *gctx) wellFormed(ready bool) {
 		g.emit(msgOp("tx", txPayload(g.nextTx(), size(), 1+r.Intn(3))))
 	case 3: // tx extended
 		g.emit(extOp("tx", txPayload(g.nextTx(), size(), 1+r.Intn(3))))
-	case 4: // unknown / unhandled commands with any payload
-		cmd := []string{"feefilter", "sendheaders", "mempool", "getdata", "notfound", "getheaders", "getblocks",
-			"merkleblock", "alert", "filterload", "xyzzy", "sendcmpct", "authch"}[r.Intn(13)]
-		n := size()
-		if n == 0 {
-			g.emit(msgOp(cmd, nil))
-		} else {
+	case 4: // unknown / unhandled commands
+		switch r.Pick(60, 10, 10, 20) {
+		case 0: // commands this reader has no decoder for: any payload is a well-formed message
+			cmd := []string{"getheaders", "getblocks", "merkleblock", "alert", "filterload", "xyzzy", "sendcmpct", "authch", "xcustom"}[r.Intn(9)]
+			n := size()
+			if n == 0 {
+				g.emit(msgOp(cmd, nil))
+			} else {
+				g.emit(fmt.Sprintf("msg cmd=%s fill=%d:%d", cmd, n, r.Intn(256)))
+			}
+		case 1: // fixed-size commands
+			if r.Chance(50) {
+				g.emit(msgOp("feefilter", le64(uint64(r.Intn(100000)))))
+			} else {
+				g.emit(msgOp([]string{"sendheaders", "mempool"}[r.Intn(2)], nil))
+			}
+		case 2: // inventory lists the reader does not handle
+			k := []int{0, 1, 3, 28, 29, 57}[r.Intn(6)] // 28*36+1 = 1009, 57*36+1 = 2053: around the discard chunk
+			pl := append([]byte{byte(k)}, make([]byte, 36*k)...)
+			for i := range pl[1:] {
+				pl[1+i] = byte(r.Intn(256))
+			}
+			g.emit(msgOp([]string{"getdata", "notfound"}[r.Intn(2)], pl))
+		case 3: // sizes at and around multiples of the 1 KiB discard chunk
+			cmd := []string{"getheaders", "getblocks", "xcustom", "alert"}[r.Intn(4)]
+			n := []int{1023, 1024, 1025, 2047, 2048, 2049, 3072, 4096, 8192}[r.Intn(9)]
 			g.emit(fmt.Sprintf("msg cmd=%s fill=%d:%d", cmd, n, r.Intn(256)))
 		}
 	case 5: // addr
@@ -294,6 +313,9 @@ func (g *gctx) wellFormed(ready bool) {
 			g.emit(extOp("block", blockPayload(header80(uint32(r.Intn(1<<20)), 0x18021fdb, 9), txs)))
 		} else {
 			n := size()
+			if r.Chance(25) {
+				n = []int{1023, 1024, 1025, 2048, 4096}[r.Intn(5)]
+			}
 			g.emit(fmt.Sprintf("ext cmd=%s fill=%d:%d", []string{"bigmsg", "headers", "inv", "x"}[r.Intn(4)], n, r.Intn(256)))
 		}
 	case 8: // requested block (ready only)
